@@ -12,6 +12,10 @@ Representation
 from fractions import Fraction
 import math
 import re
+import sys
+
+if hasattr(sys, "set_int_max_str_digits"):
+    sys.set_int_max_str_digits(0)
 
 
 class V:
@@ -127,7 +131,7 @@ def quote_atom(a):
             out.append("\\n")
         elif c == "\t":
             out.append("\\t")
-        elif o < 32 or o == 127:
+        elif o < 32 or 127 <= o < 160:
             out.append("\\x%x\\" % o)
         else:
             out.append(c)
@@ -147,7 +151,7 @@ def quote_string(s):
             out.append("\\n")
         elif c == "\t":
             out.append("\\t")
-        elif o < 32 or o == 127:
+        elif o < 32 or 127 <= o < 160:
             out.append("\\x%x\\" % o)
         else:
             out.append(c)
